@@ -1,8 +1,11 @@
 /-
-  Helper lemmas for C08 (TB/Props/C08.lean).
+  Helper lemmas for C08 (TB/Props/C08.lean). Split for build time:
+    TB.Lemmas.BencodeBase     — digits; `decodeInt` / `decodeStr` sound, complete, panic-free
+    TB.Lemmas.BencodeSound    — soundness of `decodeAny` and the list/dict loops (fuel induction); no panics
+    TB.Lemmas.BencodeComplete — completeness of the same on encodings of canonical values (fuel `2·|encode v|`)
 -/
 import TB.Model.Bencode
 import TB.Spec.BencodeSpec
-namespace TB
-
-end TB
+import TB.Lemmas.BencodeBase
+import TB.Lemmas.BencodeSound
+import TB.Lemmas.BencodeComplete
